@@ -50,11 +50,12 @@ class WithSetItemMethod(AttrMethodDescriptor):
     ) -> Any:
         if not _if:
             return self
+        mutator = attr_spec.get_collection_mutator(self, inplace=_inplace)
         return mutate_attr(
             obj=self,
             attr=attr_spec.name,
             value=(
-                attr_spec.get_collection_mutator(self, inplace=_inplace)
+                mutator
                 .add_item(
                     item=_item,
                     attrs=attrs,
@@ -63,6 +64,7 @@ class WithSetItemMethod(AttrMethodDescriptor):
             ),
             inplace=_inplace,
             type_check=False,
+            on_error=mutator.restore,
         )
 
     def build_method(self) -> Callable:
@@ -137,11 +139,12 @@ class UpdateSetItemMethod(AttrMethodDescriptor):
         if not _if:
             return self
 
+        mutator = attr_spec.get_collection_mutator(self, inplace=_inplace)
         return mutate_attr(
             obj=self,
             attr=attr_spec.name,
             value=(
-                attr_spec.get_collection_mutator(self, inplace=_inplace)
+                mutator
                 .add_item(
                     item=_new_item,
                     attrs=attrs,
@@ -152,6 +155,7 @@ class UpdateSetItemMethod(AttrMethodDescriptor):
             ),
             inplace=_inplace,
             type_check=False,
+            on_error=mutator.restore,
         )
 
     def build_method(self) -> Callable:
@@ -230,11 +234,12 @@ class TransformSetItemMethod(AttrMethodDescriptor):
     ) -> Any:
         if not _if:
             return self
+        mutator = attr_spec.get_collection_mutator(self, inplace=_inplace)
         return mutate_attr(
             obj=self,
             attr=attr_spec.name,
             value=(
-                attr_spec.get_collection_mutator(self, inplace=_inplace)
+                mutator
                 .transform_item(
                     item=_item,
                     transform=_transform,
@@ -244,6 +249,7 @@ class TransformSetItemMethod(AttrMethodDescriptor):
             ),
             inplace=_inplace,
             type_check=False,
+            on_error=mutator.restore,
         )
 
     def build_method(self) -> Callable:
@@ -314,16 +320,18 @@ class WithoutSetItemMethod(AttrMethodDescriptor):
     ) -> Any:
         if not _if:
             return self
+        mutator = attr_spec.get_collection_mutator(self, inplace=_inplace)
         return mutate_attr(
             obj=self,
             attr=attr_spec.name,
             value=(
-                attr_spec.get_collection_mutator(self, inplace=_inplace)
+                mutator
                 .remove_item(_item)
                 .collection
             ),
             inplace=_inplace,
             type_check=False,
+            on_error=mutator.restore,
         )
 
     def build_method(self) -> Callable:
